@@ -372,6 +372,52 @@ func c02Trusted(c *Ctx, openers []CallSite) {
 		}
 	}
 	c.Floor("C02.O6-trusted-only-if-verified", 2)
+
+	// ---- O8 the digest check uses the hash functions the CID names: nothing in the module replaces an entry of the
+	// process-wide multihash registry (the subscriber's digest test and ipld-prime's hasher both read it)
+	regPat := Or(Call("go-multihash.Register"), Call("go-multihash.RegisterVariableSize"), Call("go-multihash/core.Register"), Call("go-multihash/core.RegisterVariableSize"))
+	nReg := 0
+	seenReg := map[token.Pos]bool{}
+	for path, p := range c.Pkgs {
+		if !strings.HasPrefix(path, modPath) || p.Types == nil {
+			continue
+		}
+		rel := strings.TrimPrefix(strings.TrimPrefix(path, modPath), "/")
+		for _, f := range c.Funcs(rel) {
+			for _, cs := range c.Calls(f.SSA, regPat) {
+				nReg++
+				seenReg[cs.In.Pos()] = true
+				c.Bad("C02.O8-hash-registry-untouched", f.Name+" › "+abbreviate(cs.X.Name), cs.In.Pos(), "the module (re)registers a hash function in go-multihash's process-wide registry: blocks whose CID names that function are verified against a different hash than the CID promises")
+			}
+		}
+		// package initialisers are functions too
+		if sp := c.SSAPkgs[path]; sp != nil {
+			for name, m := range sp.Members {
+				if fn, ok := m.(*ssa.Function); ok && strings.HasPrefix(name, "init") {
+					for _, cs := range c.Calls(fn, regPat) {
+						if seenReg[cs.In.Pos()] {
+							continue
+						}
+						nReg++
+						c.Bad("C02.O8-hash-registry-untouched", c.short(fn.String())+" › "+abbreviate(cs.X.Name), cs.In.Pos(), "the module (re)registers a hash function in go-multihash's process-wide registry at package initialisation: blocks whose CID names that function are verified against a different hash than the CID promises")
+					}
+				}
+			}
+		}
+	}
+	if nReg == 0 {
+		c.OK("C02.O8-hash-registry-untouched", "module › no hasher registration", token.NoPos, "no call of go-multihash's Register functions in the module")
+	}
+	if pc := c.posex(); pc == nil {
+		c.Unk("C02.O8-hash-registry-untouched", "positive example", token.NoPos, "positive example package could not be loaded")
+	} else {
+		n := 0
+		for _, f := range pc.Funcs("ipnicheck/testdata/posex") {
+			n += len(pc.Calls(f.SSA, regPat))
+		}
+		c.Check(n == 1, "C02.O8-hash-registry-untouched", "positive example fires", token.NoPos, "rule found the seeded registration in the embedded example (and none in /repo)", "rule did not find the seeded registration in its positive example: it would pass vacuously")
+	}
+	c.Floor("C02.O8-hash-registry-untouched", 2)
 	_ = n
 }
 
